@@ -174,3 +174,23 @@ Lemma ex_regap_hyps :
      | None => False
      end.
 Proof. vm_compute. auto. Qed.
+
+(* ---- an item written right against the next one: a dump of the real `2000-01-01 custom "x" 1 "s"2 3`; raw_values.pop(1)
+   keeps the blank in front of "s" (`... 1 2 3`, not `... 12 3`); pop(2) (the `2`, followed by a blank) takes it along ---- *)
+Definition ex_glued_custom : node :=
+  (Tree "Custom" 0 [(mktk 1 "DATE" "2000-01-01"); (mktk 14 "WHITESPACE" " "); (mktk 2 "CUSTOM" "custom"); (mktk 15 "WHITESPACE" " "); (mktk 3 "ESCAPED_STRING" """x"""); (mktk 8 "PLACEHOLDER" ""); (mktk 9 "WHITESPACE" " "); (mktk 4 "NUMBER" "1"); (mktk 10 "WHITESPACE" " "); (mktk 5 "ESCAPED_STRING" """s"""); (mktk 6 "NUMBER" "2"); (mktk 11 "WHITESPACE" " "); (mktk 7 "NUMBER" "3"); (mktk 12 "EOL" ""); (mktk 13 "PLACEHOLDER" "")] [("_leading_comment", SOpt None); ("_date", SReq (Leaf (mktk 1 "DATE" "2000-01-01"))); ("_label", SReq (Leaf (mktk 2 "CUSTOM" "custom"))); ("_type", SReq (Leaf (mktk 3 "ESCAPED_STRING" """x"""))); ("_values", SRep 0 [(mktk 8 "PLACEHOLDER" ""); (mktk 9 "WHITESPACE" " "); (mktk 4 "NUMBER" "1"); (mktk 10 "WHITESPACE" " "); (mktk 5 "ESCAPED_STRING" """s"""); (mktk 6 "NUMBER" "2"); (mktk 11 "WHITESPACE" " "); (mktk 7 "NUMBER" "3")] (mktk 8 "PLACEHOLDER" "") [(Tree "NumberExpr" 0 [(mktk 4 "NUMBER" "1")] [("_number_add_expr", SReq (Tree "NumberAddExpr" 0 [(mktk 4 "NUMBER" "1")] [("seq", SSeq [(Tree "NumberMulExpr" 0 [(mktk 4 "NUMBER" "1")] [("seq", SSeq [(Leaf (mktk 4 "NUMBER" "1"))])] [])])] []))] []); (Leaf (mktk 5 "ESCAPED_STRING" """s""")); (Tree "NumberExpr" 0 [(mktk 6 "NUMBER" "2")] [("_number_add_expr", SReq (Tree "NumberAddExpr" 0 [(mktk 6 "NUMBER" "2")] [("seq", SSeq [(Tree "NumberMulExpr" 0 [(mktk 6 "NUMBER" "2")] [("seq", SSeq [(Leaf (mktk 6 "NUMBER" "2"))])] [])])] []))] []); (Tree "NumberExpr" 0 [(mktk 7 "NUMBER" "3")] [("_number_add_expr", SReq (Tree "NumberAddExpr" 0 [(mktk 7 "NUMBER" "3")] [("seq", SSeq [(Tree "NumberMulExpr" 0 [(mktk 7 "NUMBER" "3")] [("seq", SSeq [(Leaf (mktk 7 "NUMBER" "3"))])] [])])] []))] [])]); ("_inline_comment", SOpt None); ("_eol", SReq (Leaf (mktk 12 "EOL" ""))); ("_meta", SRep 0 [(mktk 13 "PLACEHOLDER" "")] (mktk 13 "PLACEHOLDER" "") []); ("_dedent_mark", SOpt None); ("_trailing_comment", SOpt None)] [("indent_by", "    ")]).
+Lemma ex_glued_hyps :
+  hwf_b all_classes ex_glued_custom = true
+  /\ rep_touches ex_glued_custom ex_glued_custom "_values" 1%nat = true
+  /\ rep_touches ex_glued_custom ex_glued_custom "_values" 2%nat = false
+  /\ match remove_item ex_glued_custom [] "_values" 1%nat with
+     | Some (x, r) => hwf_b all_classes r = true /\ map k_text (node_toks x) = ["""s"""]
+                      /\ map k_text (node_toks r) = ["2000-01-01"; " "; "custom"; " "; """x"""; ""; " "; "1"; " "; "2"; " "; "3"; ""; ""]
+     | None => False
+     end
+  /\ match remove_item ex_glued_custom [] "_values" 2%nat with
+     | Some (x, r) => hwf_b all_classes r = true
+                      /\ map k_text (node_toks r) = ["2000-01-01"; " "; "custom"; " "; """x"""; ""; " "; "1"; " "; """s"""; " "; "3"; ""; ""]
+     | None => False
+     end.
+Proof. vm_compute. auto 10. Qed.
